@@ -7,6 +7,7 @@ import ConfModel.Lemmas.H2Frame
 import ConfModel.Lemmas.H2Retry
 import ConfModel.Lemmas.H2FrameSpec
 import ConfModel.Lemmas.H2Once
+import ConfModel.Lemmas.H2DataSpec
 import ConfModel.Spec.H2
 namespace ConfModel.Props.C15
 open ConfModel.H2 ConfModel.H2.Machine
@@ -178,6 +179,35 @@ theorem connection_loss_completes_open_streams (c : L2) (hc : TOK c.streams) (er
 theorem table_inv_init : TOK ([] : Tbl) := by simp [TOK]
 theorem table_inv_run (c : L2) (hc : TOK c.streams) (l : List (Bool × Frame)) : TOK (runL2 c l).1.streams :=
   TOK_runL2 l c hc
+
+/-! ### messages of a stream (the per-stream `dataTracer`) -/
+
+/-- Cutting a body into DATA frames differently does not change the message events: for every
+tracer configuration, reachable state and payloads `a`, `b`, tracing `a` then `b` is tracing
+`a ++ b`. -/
+theorem data_frames_split_independent (c : DCfg) (s : DSt) (hs : DInv s) (a b : Bytes) :
+    dataTrace c s (a ++ b) = comb (dataTrace c s a) (fun s' => dataTrace c s' b) :=
+  dataTrace_append c s hs a b
+
+/-- **Messages in order = envelope parse of the concatenation.**  Whatever way a request or
+response body is cut into DATA frames, tracing the payloads one after the other and flushing
+at the end of the stream reports exactly the messages of the body (`specMsgs`: 5-byte
+envelopes, payloads, the end-stream message's content, a cut last message with the bytes
+actually seen; for non-enveloped protocols the body as one item). -/
+theorem messages_eq_envelope_parse (c : DCfg) (payloads : List Bytes) :
+    (dataTraceAll c DSt.init payloads).2.map DEv.msg ++ (dataFlush (dataTraceAll c DSt.init payloads).1).2.map DEv.msg
+      = specMsgs c payloads.flatten := by
+  rw [dataTraceAll_eq c payloads DSt.init (fun _ => DInv_init)]
+  exact tracedMsgs_eq_spec c payloads.flatten
+
+/-- non-vacuity: a gRPC response body with two messages cut into three DATA frames in the
+middle of an envelope prefix and of a payload -/
+example :
+    let c : DCfg := { isReq := false, isStream := true, dec := .identity }
+    (dataTraceAll c DSt.init [[0, 0, 0], [0, 2, 7, 8, 1, 0, 0], [0, 1, 9]]).2 =
+      [DEv.data (some ⟨0, 2⟩) 2, DEv.data (some ⟨1, 1⟩) 1] ∧
+    specMsgs c [0, 0, 0, 0, 2, 7, 8, 1, 0, 0, 0, 1, 9] = [Msg.data (some ⟨0, 2⟩) 2, Msg.data (some ⟨1, 1⟩) 1] := by
+  decide
 
 /-! ### layer 3: the retry collector -/
 
